@@ -1,0 +1,309 @@
+//go:build verif
+
+// Contracts for property C13 (write forwarding under a halt lock), the non-handler half:
+// the primary-side grant / release / expiry of a database's halt lock, the replica-side
+// acquisition / release of the remote halt lock, and the write-lock retry loop they rest on.
+// Comment-only file, checked by govc.
+package litefs
+
+// ===========================================================================
+// db.go — AcquireWriteLock: the retry loop around TryAcquireWriteLock.
+//
+// The callback is an arbitrary function of the caller. For the stand-alone proof of the loop it is
+// assumed not to write the heap (A-CB2); where a caller passes a function literal (AcquireHaltLock)
+// the engine does not use this contract but inlines the loop and runs the literal's body in place.
+//@ func param.AcquireWriteLock.fn
+//@   pure
+
+// Partial correctness (the loop need not terminate before ctx is done): a guard set is returned iff
+// err == nil; it is fresh, bound to db's twelve locks and holds the full write lock of the journal mode.
+// The callback is consulted before EVERY attempt and an error from it ends the loop without an attempt.
+// The halt-lock record stored in db is not touched by the loop.
+//@ func (db *DB) AcquireWriteLock [C13,C11,C10,C05,C06,C15,C16,C14]
+//@   requires  db != nil && locksWF(db) && typeis(aload(db.mode), DBMode) && ctx != nil
+// only lock state changes (mutex counters/holders, guards, the fresh guard set and its guard slice, the ghost holder sets)
+//@   modifies  class("F|litefs.RWMutex|sharedN"), class("F|litefs.RWMutex|excl"), class("G|litefs.RWMutex.S"), class("F|litefs.RWMutexGuard|*"), class("F|litefs.GuardSet|*"), class("S|any")
+//@   loop 1 modifies class("F|litefs.RWMutex|sharedN"), class("F|litefs.RWMutex|excl"), class("G|litefs.RWMutex.S"), class("F|litefs.RWMutexGuard|*"), class("F|litefs.GuardSet|*"), class("S|any")
+//@   ghost asked bool = false
+//@   on call param.AcquireWriteLock.fn assert !asked ; then asked = (ret0 == nil)
+//@   on call DB.TryAcquireWriteLock assert fn == nil || asked ; then asked = false
+//@   loop 1 invariant locksWF(db) && typeis(aload(db.mode), DBMode) && !asked && haltRecUnchanged(db)
+//@   ensures   locksWF(db)
+//@   ensures   (err == nil) == (result0 != nil)
+//@   ensures   result0 != nil ==> fresh(result0) && guardSetWF(result0, db)
+//@   ensures   result0 != nil && dbModeIs(db, DBModeRollback) ==> holdsWriteLockRollback(result0)
+//@   ensures   result0 != nil && !dbModeIs(db, DBModeRollback) ==> holdsWriteLockWAL(result0)
+//@   ensures   unchanged(aload(db.mode), aload(db.pos), aload(db.remoteHaltLock)) && haltRecUnchanged(db)
+//@   nopanic
+
+// ===========================================================================
+// Halt-lock state of a database (both atomic.Value fields are plain cells in the engine, A-SEQ).
+
+//@ spec func haltOf(db *DB) *haltLockAndGuard = as(aload(db.haltLockAndGuard), *haltLockAndGuard)
+//@ spec func remoteOf(db *DB) *HaltLock = as(aload(db.remoteHaltLock), *HaltLock)
+
+// The primary-side record (cell, pair, and the HaltLock it points to) is exactly as at entry.
+//@ pred haltRecUnchanged(db *DB) = unchanged(aload(db.haltLockAndGuard)) &&
+//@      (typeis(aload(db.haltLockAndGuard), *haltLockAndGuard) && haltOf(db) != nil ==>
+//@         unchanged(haltOf(db).haltLock, haltOf(db).guardSet) &&
+//@         (haltOf(db).haltLock != nil ==> unchanged(haltOf(db).haltLock.ID, haltOf(db).haltLock.Pos.TXID,
+//@              haltOf(db).haltLock.Pos.PostApplyChecksum, haltOf(db).haltLock.Expires)))
+
+// Both cells hold a (possibly nil) pointer of their declared use (NewDB stores typed nils).
+//@ pred haltCellsWF(db *DB) = typeis(aload(db.haltLockAndGuard), *haltLockAndGuard) && typeis(aload(db.remoteHaltLock), *HaltLock)
+
+// Object invariant of the primary-side record: a stored pair has a lock record and a guard set bound to db's locks.
+//@ pred haltInv(db *DB) = haltCellsWF(db) && (haltOf(db) != nil ==> haltOf(db).haltLock != nil && guardSetWF(haltOf(db).guardSet, db))
+
+// The part of haltInv that does not speak about guard states. After an attempt that ran TryAcquireWriteLock but
+// published nothing (error / idempotent return), the well-formedness of the guards of the STORED guard set cannot be
+// re-established from TryAcquireWriteLock's contract (it has no frame for guards of other guard sets), so only this
+// weaker invariant is promised on those paths; on a successful grant the full haltInv(db) holds for the new record.
+//@ pred haltRecWF(db *DB) = haltCellsWF(db) && (haltOf(db) != nil ==> haltOf(db).haltLock != nil && haltOf(db).guardSet != nil)
+
+// ===========================================================================
+// db.go — primary side: grant, release, expiry.
+
+// AcquireHaltLock. stage: 0 = nothing held, 1 = full write lock held (guard set gs), 2 = recovery done,
+// 3 = position read after recovery, 4 = lock record published.
+// The callback handed to AcquireWriteLock is a function literal: the engine inlines AcquireWriteLock here (with its
+// loop invariant) and runs the literal in place, so the idempotence check is verified on the real code.
+// clearedPrev marks the defensive branch "there shouldn't be an existing halt lock but clear it just in case"
+// (db.go:267-270). It is proved unreachable unless a lock with a DIFFERENT id is stored at entry. In that case
+// reaching it would need TryAcquireWriteLock to succeed while the stored guard set still holds the write lock,
+// which the lock contracts exclude but do not export in a usable form (TryAcquireWriteLock / GuardSet.Unlock say
+// nothing about guards of OTHER guard sets): the Unlock preconditions on that branch and the lock-state
+// postconditions after it are therefore not provable; they are deferred to the thorough tier / guarded by !clearedPrev.
+//@ func (db *DB) AcquireHaltLock [C13]
+//@   requires  dbWF(db) && locksWF(db) && ctx != nil && haltInv(db) && db.store != nil
+//@   ghost gs *GuardSet = nil
+//@   ghost stage int = 0
+//@   ghost relGS bool = false
+//@   ghost clearedPrev bool = false
+//@   ghost asked bool = false
+//@   on call param.AcquireWriteLock.fn assert !asked ; then asked = (ret0 == nil)
+//@   on call DB.TryAcquireWriteLock assert asked ; then asked = false
+//@   on call DB.AcquireWriteLock assert stage == 0 && lockID != 0 ; then gs = ret0, stage = (ret1 == nil ? 1 : 0), relGS = false, clearedPrev = false
+//@   on call DB.recover assert stage == 1 && gs != nil ; then stage = (ret0 == nil ? 2 : stage)
+//@   on call DB.Pos assert stage == 2 ; then stage = 3
+//@   on call time.Time.Add assert stage == 2 && arg1 == db.store.HaltLockTTL
+//@   on call atomic.Value.CompareAndSwap assert stage == 3 && arg0 == addr(db.haltLockAndGuard) && arg1 == aload(db.haltLockAndGuard) &&
+//@        typeis(arg2, *haltLockAndGuard) && as(arg2, *haltLockAndGuard) != nil && as(arg2, *haltLockAndGuard).guardSet == gs &&
+//@        as(arg2, *haltLockAndGuard).haltLock != nil && as(arg2, *haltLockAndGuard).haltLock.ID == lockID &&
+//@        as(arg2, *haltLockAndGuard).haltLock.Pos.TXID == posOf(db).TXID &&
+//@        as(arg2, *haltLockAndGuard).haltLock.Pos.PostApplyChecksum == posOf(db).PostApplyChecksum &&
+//@        as(arg2, *haltLockAndGuard).haltLock.Expires != nil ; then stage = (ret0 ? 4 : stage)
+//@   on call GuardSet.Unlock assert (arg0 == gs && gs != nil && stage >= 1 && stage < 4 && retErr != nil) ||
+//@        (stage == 3 && haltOf(db) != nil && arg0 == haltOf(db).guardSet && arg0 != gs) ; then relGS = (relGS || arg0 == gs), clearedPrev = (clearedPrev || arg0 != gs)
+//@   thorough  AcquireHaltLock/call/litefs.GuardSet.Unlock/pre
+//@   ensures   lockID == 0 ==> err != nil && stage == 0 && gs == nil
+//@   ensures   err != nil ==> result0 == nil && stage < 4 && (gs != nil ==> relGS)
+//@   ensures   err != nil && !clearedPrev ==> haltRecUnchanged(db)
+//@   ensures   err == nil ==> stage == 4 || stage == 0
+//@   ensures   err == nil ==> result0 != nil && result0.ID == lockID && haltOf(db) != nil && haltOf(db).haltLock != nil &&
+//@             haltOf(db).haltLock.ID == lockID && result0.Pos.TXID == haltOf(db).haltLock.Pos.TXID &&
+//@             result0.Pos.PostApplyChecksum == haltOf(db).haltLock.Pos.PostApplyChecksum && result0.Expires == haltOf(db).haltLock.Expires
+//@   ensures   err == nil && stage == 4 ==> haltOf(db).guardSet == gs && gs != nil && !relGS &&
+//@             result0.Pos.TXID == posOf(db).TXID && result0.Pos.PostApplyChecksum == posOf(db).PostApplyChecksum
+//@   ensures   err == nil && stage == 4 && !clearedPrev && dbModeIs(db, DBModeRollback) ==> holdsWriteLockRollback(gs)
+//@   ensures   err == nil && stage == 4 && !clearedPrev && !dbModeIs(db, DBModeRollback) ==> holdsWriteLockWAL(gs)
+//@   ensures   err == nil && stage == 0 ==> gs == nil && haltRecUnchanged(db)
+//@   ensures   old(haltOf(db)) != nil && old(haltOf(db).haltLock.ID) == lockID && lockID != 0 ==> err == nil && stage == 0
+//@   ensures   old(haltOf(db)) == nil || old(haltOf(db).haltLock.ID) != lockID ==> stage != 0 || err != nil
+//@   ensures   old(haltOf(db)) == nil || old(haltOf(db).haltLock.ID) == lockID ==> !clearedPrev
+//@   ensures   !clearedPrev ==> locksWF(db) && haltRecWF(db)
+//@   ensures   !clearedPrev && err == nil && stage == 4 ==> haltInv(db)
+//@   nopanic
+
+//@ pred gsAllUnlocked(gs *GuardSet) = gUnlocked(addr(gs.pending)) && gUnlocked(addr(gs.shared)) && gUnlocked(addr(gs.reserved)) &&
+//@      gUnlocked(addr(gs.write)) && gUnlocked(addr(gs.ckpt)) && gUnlocked(addr(gs.recover)) &&
+//@      gUnlocked(addr(gs.read0)) && gUnlocked(addr(gs.read1)) && gUnlocked(addr(gs.read2)) &&
+//@      gUnlocked(addr(gs.read3)) && gUnlocked(addr(gs.read4)) && gUnlocked(addr(gs.dms))
+
+// ReleaseHaltLock: only a request that names the ID of the stored lock has an effect; then the record is
+// cleared first and exactly the stored guard set is unlocked, once, so the primary can write again.
+// Any other request changes neither the record nor any lock.
+//@ func (db *DB) ReleaseHaltLock [C13]
+//@   requires  db != nil && locksWF(db) && haltInv(db)
+//@   ghost cleared bool = false
+//@   ghost n int = 0
+//@   on call atomic.Value.CompareAndSwap assert !cleared && arg0 == addr(db.haltLockAndGuard) && haltOf(db) != nil && haltOf(db).haltLock.ID == id &&
+//@        arg1 == aload(db.haltLockAndGuard) && typeis(arg2, *haltLockAndGuard) && as(arg2, *haltLockAndGuard) == nil ; then cleared = ret0
+//@   on call GuardSet.Unlock assert n == 0 && cleared && arg0 == old(haltOf(db).guardSet) ; then n = n + 1
+//@   ensures   old(haltOf(db)) != nil && old(haltOf(db).haltLock.ID) == id ==> haltOf(db) == nil && n == 1 && gsAllUnlocked(old(haltOf(db).guardSet))
+//@   ensures   old(haltOf(db)) == nil || old(haltOf(db).haltLock.ID) != id ==> n == 0 && !cleared && haltRecUnchanged(db) && locksUnchanged(db)
+//@   ensures   haltInv(db) && locksWF(db)
+//@   nopanic
+
+// EnforceHaltLockExpiration: the record is cleared and its guard set unlocked only when the stored lock has an
+// expiry time and that time is not after now (time.Time.After is uninterpreted; its receiver is pinned to the stored time).
+//@ func (db *DB) EnforceHaltLockExpiration [C13]
+//@   requires  db != nil && locksWF(db) && haltInv(db)
+//@   ghost live bool = true
+//@   ghost asked bool = false
+//@   ghost cleared bool = false
+//@   ghost n int = 0
+//@   on call time.Time.After assert !asked && haltOf(db) != nil && haltOf(db).haltLock.Expires != nil &&
+//@        arg0.wall == haltOf(db).haltLock.Expires.wall && arg0.ext == haltOf(db).haltLock.Expires.ext ; then live = ret0, asked = true
+//@   on call atomic.Value.CompareAndSwap assert asked && !live && !cleared && arg0 == addr(db.haltLockAndGuard) && haltOf(db) != nil &&
+//@        arg1 == aload(db.haltLockAndGuard) && typeis(arg2, *haltLockAndGuard) && as(arg2, *haltLockAndGuard) == nil ; then cleared = ret0
+//@   on call GuardSet.Unlock assert n == 0 && cleared && arg0 == old(haltOf(db).guardSet) ; then n = n + 1
+//@   ensures   old(haltOf(db)) == nil || old(haltOf(db).haltLock.Expires) == nil ==> n == 0 && !cleared && haltRecUnchanged(db) && locksUnchanged(db)
+//@   ensures   asked && live ==> n == 0 && !cleared && haltRecUnchanged(db) && locksUnchanged(db)
+//@   ensures   asked && !live ==> haltOf(db) == nil && n == 1 && gsAllUnlocked(old(haltOf(db).guardSet))
+//@   ensures   old(haltOf(db)) != nil && old(haltOf(db).haltLock.Expires) != nil ==> asked
+//@   ensures   haltInv(db) && locksWF(db)
+//@   nopanic
+
+// ===========================================================================
+// db.go — replica side: the remote halt lock.
+
+// Assumption about every replication client (A-CLIENT): a successful AcquireHaltLock returns a lock record
+// (http.Client decodes the response body into a new HaltLock). No in-memory state of DB/Store is touched.
+//@ func litefs.Client.AcquireHaltLock
+//@   pure
+//@   ensures ret1 == nil ==> ret0 != nil
+
+// Getters. The type assertions succeed because both cells only ever hold a (possibly nil) pointer of
+// their type (haltCellsWF; established by NewDB and preserved by every store in this file).
+//@ func (db *DB) RemoteHaltLock [C13]
+//@   requires  db != nil && typeis(aload(db.remoteHaltLock), *HaltLock)
+//@   pure
+//@   ensures   (result == nil) == (remoteOf(db) == nil)
+//@   ensures   result != nil ==> fresh(result) && result.ID == remoteOf(db).ID && result.Pos.TXID == remoteOf(db).Pos.TXID &&
+//@             result.Pos.PostApplyChecksum == remoteOf(db).Pos.PostApplyChecksum && result.Expires == remoteOf(db).Expires
+//@   nopanic
+
+// HasRemoteHaltLock / Writeable are called from contracts that only know dbWF(db); their results are
+// characterised under the cell typing, which is not made a precondition here (see NOTES).
+//@ func (db *DB) HasRemoteHaltLock [C13,C07]
+//@   requires  db != nil
+//@   pure
+//@   ensures   typeis(aload(db.remoteHaltLock), *HaltLock) ==> result == (remoteOf(db) != nil)
+
+// Write authority: a node may write iff it holds the primary lease or a remote halt lock.
+//@ func (db *DB) Writeable [C13]
+//@   ensures   typeis(aload(db.remoteHaltLock), *HaltLock) ==> result == (remoteOf(db) != nil || db.store.lease != nil)
+
+// WaitPosExact: success is returned only when the database position equals the target exactly (TXID and
+// checksum); a position beyond the target or a checksum mismatch is an error, never a success. Nothing is written.
+// Partial correctness; in the sequential model the position cannot advance inside the loop (A-SEQ), so
+// "eventually reaches" is not claimed.
+//@ func (db *DB) WaitPosExact [C13]
+//@   requires  db != nil && ctx != nil && typeis(aload(db.pos), ltx.Pos)
+//@   modifies
+//@   loop 1 invariant typeis(aload(db.pos), ltx.Pos)
+//@   ensures   err == nil ==> posOf(db).TXID == target.TXID && posOf(db).PostApplyChecksum == target.PostApplyChecksum
+//@   nopanic
+
+// AcquireRemoteHaltLock. stage: 0 = nothing, 1 = granted by the primary (record g), 2 = g stored locally,
+// 3 = local position equals g.Pos.
+//@ func (db *DB) AcquireRemoteHaltLock [C13]
+//@   requires  db != nil && db.store != nil && db.store.Client != nil && ctx != nil && haltCellsWF(db) && typeis(aload(db.pos), ltx.Pos)
+//@   ghost stage int = 0
+//@   ghost g *HaltLock = nil
+//@   ghost relRemote bool = false
+//@   on call Client.AcquireHaltLock assert stage == 0 && lockID != 0 && arg2 == db.store.id && arg3 == db.name && arg4 == lockID ; then g = ret0, stage = (ret1 == nil ? 1 : 0)
+//@   on call atomic.Value.Store assert stage == 1 && arg0 == addr(db.remoteHaltLock) && typeis(arg1, *HaltLock) && as(arg1, *HaltLock) == g ; then stage = 2
+//@   on call DB.WaitPosExact assert stage == 2 && arg2.TXID == g.Pos.TXID && arg2.PostApplyChecksum == g.Pos.PostApplyChecksum ; then stage = (ret0 == nil ? 3 : 2)
+//@   on call Client.ReleaseHaltLock assert stage >= 1 && stage < 3 && retErr != nil && !relRemote && arg2 == db.store.id && arg3 == db.name && arg4 == g.ID ; then relRemote = true
+//@   ensures   lockID == 0 ==> err != nil && stage == 0
+//@   ensures   stage == 0 ==> err != nil && unchanged(aload(db.remoteHaltLock))
+//@   ensures   err == nil ==> stage == 3 && !relRemote && result0 != nil && remoteOf(db) == g && g != nil && result0.ID == g.ID &&
+//@             result0.Pos.TXID == g.Pos.TXID && result0.Pos.PostApplyChecksum == g.Pos.PostApplyChecksum &&
+//@             posOf(db).TXID == g.Pos.TXID && posOf(db).PostApplyChecksum == g.Pos.PostApplyChecksum
+//@   ensures   err != nil ==> result0 == nil && stage < 3 && (stage >= 1 ==> relRemote)
+//@   ensures   err != nil && stage >= 1 ==> remoteOf(db) != g
+//@   ensures   haltCellsWF(db)
+//@   nopanic
+
+// Recover = full write lock + recover(), the lock released on every path. Neither halt-lock cell is touched
+// (recover()'s transitive write set is computed by the engine; it contains no atomic.Value cell other than db.pos/db.mode — see NOTES).
+//@ func (db *DB) Recover [C13]
+//@   requires  dbWF(db) && locksWF(db) && ctx != nil
+//@   ghost gs *GuardSet = nil
+//@   ghost rel bool = false
+//@   on call DB.AcquireWriteLock assert gs == nil ; then gs = ret0
+//@   on call DB.recover assert gs != nil && !rel
+//@   on call GuardSet.Unlock assert arg0 == gs && gs != nil && !rel ; then rel = true
+//@   ensures   gs != nil ==> rel
+//@   ensures   gs == nil ==> err != nil
+//@   ensures   locksWF(db)
+//@   ensures   unchanged(aload(db.remoteHaltLock), aload(db.haltLockAndGuard))
+//@   nopanic
+
+// UnsetRemoteHaltLock: the local reference is cleared only when it carries the given ID, and only after a
+// successful recovery (rollback / checkpoint); a request for another ID, or with no lock held, changes nothing
+// and runs no recovery; a failed recovery leaves the reference in place.
+// (UnsetRemoteHaltLock itself is the one-line wrapper unsetRemoteHaltLock(ctx, lockID, false), inlined by the engine.)
+// The recovery runs under the write lock: DB.Recover takes it; with writeLocked the caller holds it and recover runs directly.
+//@ func (db *DB) unsetRemoteHaltLock [C13,C06]
+//@   requires  dbWF(db) && locksWF(db) && ctx != nil && haltCellsWF(db)
+//@   ghost rec int = 0
+//@   ghost cleared bool = false
+//@   on call DB.Recover assert !writeLocked && rec == 0 && remoteOf(db) != nil && remoteOf(db).ID == lockID ; then rec = (ret0 == nil ? 2 : 1)
+//@   on call DB.recover assert writeLocked && rec == 0 && remoteOf(db) != nil && remoteOf(db).ID == lockID ; then rec = (ret0 == nil ? 2 : 1)
+//@   on call atomic.Value.CompareAndSwap assert rec == 2 && !cleared && arg0 == addr(db.remoteHaltLock) && arg1 == aload(db.remoteHaltLock) &&
+//@        remoteOf(db) != nil && remoteOf(db).ID == lockID && typeis(arg2, *HaltLock) && as(arg2, *HaltLock) == nil ; then cleared = ret0
+//@   ensures   old(remoteOf(db)) != nil && old(remoteOf(db).ID) == lockID ==> rec != 0 && (err == nil) == (rec == 2) && (err == nil ==> remoteOf(db) == nil && cleared)
+//@   ensures   old(remoteOf(db)) == nil || old(remoteOf(db).ID) != lockID ==> err == nil && rec == 0 && !cleared
+//@   ensures   !cleared ==> unchanged(aload(db.remoteHaltLock))
+//@   ensures   haltCellsWF(db) && locksWF(db) && unchanged(aload(db.haltLockAndGuard))
+//@   nopanic
+
+// ReleaseRemoteHaltLock: local unset first (see above); the primary is told to release only after the local
+// reference is gone or was not ours, never on a primary, and with the caller's ID.
+//@ func (db *DB) ReleaseRemoteHaltLock [C13]
+//@   requires  dbWF(db) && locksWF(db) && ctx != nil && haltCellsWF(db) && db.store.Client != nil
+//@   ghost unset int = 0
+//@   ghost told bool = false
+//@   on call DB.UnsetRemoteHaltLock assert unset == 0 && arg2 == lockID ; then unset = (ret0 == nil ? 2 : 1)
+//@   on call Client.ReleaseHaltLock assert unset == 2 && !told && arg2 == db.store.id && arg3 == db.name && arg4 == lockID &&
+//@        (remoteOf(db) == nil || remoteOf(db).ID != lockID) ; then told = true
+//@   ensures   err == nil ==> unset == 2 && (remoteOf(db) == nil || remoteOf(db).ID != lockID)
+//@   ensures   unset != 2 ==> err != nil && !told
+//@   ensures   haltCellsWF(db) && locksWF(db)
+//@   nopanic
+
+// ===========================================================================
+// store.go — expiry sweep: every database of the store is visited under the store mutex, with the caller's context.
+// Each visit needs the per-database invariant (locksWF, haltInv); it is assumed for every registered database at
+// entry and carried as loop invariant. Its preservation across one database's expiry (loop1/step) needs a
+// separation argument between distinct DB objects that the engine cannot make: DB.EnforceHaltLockExpiration has
+// no `modifies` frame (an atomic.Value cell cannot be named in one), so all lock classes are havocked at the call.
+// Those step obligations are deferred to the thorough tier, where they remain undecided (see NOTES).
+//@ pred storeDBsWF(s *Store) = forall name string :: has(s.dbs, name) ==> s.dbs[name] != nil && locksWF(s.dbs[name]) && haltInv(s.dbs[name])
+
+//@ func (s *Store) EnforceHaltLockExpiration [C13]
+//@   requires  s != nil && storeDBsWF(s)
+//@   ghost held bool = false
+//@   on call sync.Mutex.Lock assert !held && arg0 == addr(s.mu) ; then held = true
+//@   on call sync.Mutex.Unlock assert held && arg0 == addr(s.mu) ; then held = false
+//@   on call DB.EnforceHaltLockExpiration assert held && arg1 == ctx
+//@   loop 1 invariant held
+//@   loop 1 invariant storeDBsWF(s) [C13,thorough]
+//@   ensures   !held
+//@   nopanic
+
+// ===========================================================================
+// db.go — forwarding block of CommitJournal (merged with the protocol automaton in zz_contracts_verif.go; `stage`
+// is declared there: 6 = LTX file complete and fsynced, 7 = LTX file renamed into place = published locally).
+// The transaction is sent to the primary iff a remote halt lock is held, exactly once, with that lock's ID, this
+// node's ID and this database's name, after the LTX file is durable and BEFORE it is published locally; local
+// publication happens only after the primary acknowledged (Commit returned nil).
+//@ func (db *DB) CommitJournal [C13]
+//@   requires  typeis(aload(db.remoteHaltLock), *HaltLock)
+//@   ghost needFwd int = 0
+//@   ghost fwd bool = false
+//@   on call DB.RemoteHaltLock assert stage == 6 && needFwd == 0 ; then needFwd = (ret0 != nil ? 2 : 1)
+//@   on call Client.Commit assert needFwd == 2 && !fwd && remoteOf(db) != nil && arg2 == db.store.id && arg3 == db.name && arg4 == remoteOf(db).ID ; then fwd = (ret0 == nil)
+//@   on call OS.Rename op "COMMITJOURNAL:LTX" assert needFwd != 0 && (needFwd == 2) == (remoteOf(db) != nil) && (needFwd == 2) == fwd
+//@   ensures   err == nil && stage == 12 ==> (remoteOf(db) != nil) == fwd
+
+// Callers of CommitJournal under contract: the cell typing is part of the object invariant they assume.
+//@ func (db *DB) WriteJournalAt
+//@   requires  typeis(aload(db.remoteHaltLock), *HaltLock)
+//@ func (db *DB) TruncateJournal
+//@   requires  typeis(aload(db.remoteHaltLock), *HaltLock)
+//@ func (db *DB) RemoveJournal
+//@   requires  typeis(aload(db.remoteHaltLock), *HaltLock)
